@@ -36,6 +36,9 @@ EXPLANATION = (
     "collected delays) write the current value.  R5 delays, spreads and source indices are accumulated once "
     "per edge in the order of `edges` (directly, or as one tuple per edge that is unzipped front to back after the loop); every _add_edge_buffer call receives edges/delays/nodes of the same _collect_delays_from_edges "
     "result at the same granularity; the re-pointing loop walks `edges` in order and advances the slot range by len(nodes[i]).  "
+    "R7 the conversion depends on self.step_size and the caller's flag: a step count may be remembered across calls only under a "
+    "key that contains them (class/module-level containers outlive the network and need the step size in the key; shared lint "
+    "persistent_memo_key on the conversion functions only).  "
     "NOT decided: zero pre-history values, equality with the recurrence, what the backends do with index/index_2d/index_axis (C02), the "
     "DDE `past(...)` branch (C10), the Julia/Matlab spelling of roll with an axis argument (circshift; not executable here)."
 )
@@ -1235,6 +1238,47 @@ def r_perm_identity(ctx, rid):
     permutation_test_as_identity(ctx, rid)
 
 
+def r7_conversion_memo_key(ctx, rid):
+    """The time -> steps conversion depends on the step size of the network being compiled (and on the caller's discretize
+    flag).  A result may therefore be remembered across calls only under a key that contains everything it was computed
+    from: a container that outlives the NetworkGraph (class / module level) needs the step size in its key; any container
+    needs the parameters.  Decided with the shared lint `persistent_memo_key` on exactly the conversion functions
+    (_preprocess_delay, _process_delays and the same-module helpers they call); self-test: C09-m60.. / C09-t60.."""
+    from ._pitfall_lints import persistent_memo_key
+    pre = U.method(ctx, "_preprocess_delay")
+    proc = U.method(ctx, "_process_delays")
+    # the conversion must read the step size at all, else the statement above is void on this tree
+    quot = [n for g in U.helper_scopes(ctx, pre) for n in walk_shallow(g.node)
+            if isinstance(n, ast.Attribute) and n.attr == "step_size" and isinstance(n.value, ast.Name) and n.value.id == g.self_name]
+    ctx.require(quot, f"{rid}: _preprocess_delay no longer reads self.step_size (re-derive what the conversion depends on)")
+    funcs, seen = [], set()
+    for anchor in (pre, proc):
+        for g in U.helper_scopes(ctx, anchor):
+            if g.qual not in seen:
+                seen.add(g.qual)
+                funcs.append(g)
+    hits = persistent_memo_key(ctx, funcs)
+    by_func = {}
+    for g, node, why in hits:
+        by_func.setdefault(g.qual, []).append((g, node, why))
+    for g in funcs:
+        stores = [st for st in walk_shallow(g.node) if isinstance(st, ast.Assign) and len(st.targets) == 1
+                  and isinstance(st.targets[0], ast.Subscript) and not isinstance(st.targets[0].value, ast.Name)]
+        if g.qual not in by_func:
+            ctx.ok(rid, g, g.node, "no step count is remembered under a key that lacks the step size / the caller's flag" +
+                   (f" ({len(stores)} store(s) into attribute containers checked)" if stores else " (nothing is cached: recomputed on every call)"),
+                   {"attribute_stores": [norm(st) for st in stores]}, label="delay conversion: cached results are keyed by all inputs",
+                   nontrivial=bool(stores))
+            continue
+        for k, (g_, node, why) in enumerate(by_func[g.qual]):
+            tgt = node.targets[0].value if isinstance(node, ast.Assign) and isinstance(node.targets[0], ast.Subscript) else None
+            cname = ast.unparse(tgt) if tgt is not None else "?"
+            ctx.violation(rid, g, node, f"{why}.  Here: the number of ring-buffer steps of a delay is round(delay / step_size) of the network being "
+                                        f"compiled; a network compiled later in the same process with another step size (or a call with another "
+                                        f"discretize flag) would reuse the stale step count, so its edges read the source the wrong number of steps back",
+                          {"container": cname}, label=f"delay conversion: memo `{cname}` keyed without all inputs" + ("" if k == 0 else f" #{k + 1}"))
+
+
 RULES = [
     ("C09-R1", r1_ring_protocol, 11),      # 3 siblings x (order, roll, write, read) + slot agreement + Fortran hook = 14 today
     ("C09-R2", r2_capacity, 2),            # 3 today; a sibling whose list R1 rejects is skipped here
@@ -1242,4 +1286,5 @@ RULES = [
     ("C09-R4", r4_default_delay_matches_write_slot, 2),
     ("C09-R5", r5_slot_order, 4),          # accumulation, >= 1 call site, re-pointing loop, flattening (6 today: 3 call sites)
     ("C09-R6", r_perm_identity, 1),
+    ("C09-R7", r7_conversion_memo_key, 2),   # one obligation per conversion function (_preprocess_delay, _process_delays)
 ]
